@@ -301,6 +301,13 @@ class EnvHandle(object):
         except Exception as e:
             return "ERR:" + type(e).__name__
 
+    def nlv_default(self):
+        """Valuation with the raising default: ('value', x) or ('raised', type)."""
+        try:
+            return ["value", float(self.env.broker.net_liquidation_value())]
+        except Exception as e:
+            return ["raised", type(e).__name__]
+
     def resolve_action(self, a):
         n = len(self.space_contracts)
         if isinstance(a, dict):
@@ -454,6 +461,7 @@ class EpiSim(object):
                     "info_keys": sorted(info.keys()) if isinstance(info, dict) else None,
                     "now": h.env.now(), "clock": AbstractContract.now, "hold": hq, "margins": hm, "nlv": h.nlv(),
                     "n_rec": len(h.env.broker.track_record), "books": h.books(), "env_done": bool(h.env._done),
+                    "nlv_default": h.nlv_default(),
                     "end_seq": self.sink.next_seq()})
         if isinstance(info, dict) and "_rebalancing" in info:
             rec["info_rebalancing_time"] = info["_rebalancing"].time
